@@ -393,11 +393,22 @@ def _gen_config(cfg, logdir):
         gc['logfile_days'] = '0'                                    # else: not configured = unlimited
     if cfg['cdays'] != 7:
         gc['comlog_days'] = str(cfg['cdays'])                       # 7 is the default
+    # the switch as python value or as the text a config file gives
     if cfg['gcomlog']:
-        gc['comlog'] = True
+        gc['comlog'] = 'True' if cfg['file'] == 'error' else True
     elif not cfg['mcomlog']:
-        gc['comlog'] = False                                        # else: not configured = off
+        gc['comlog'] = False
+    elif cfg['file'] in TEXT_OFF:
+        gc['comlog'] = TEXT_OFF[cfg['file']]                        # else: not configured = off
     return gc
+
+
+TEXT_OFF = {'error': 'False', 'debug': '0'}
+
+
+def _text_off(cfg):
+    """is the comlog switch of this configuration off and spelled as text?"""
+    return not cfg['gcomlog'] and cfg['mcomlog'] and cfg['file'] in TEXT_OFF
 
 
 class SinkWorld:
@@ -733,6 +744,7 @@ def _replay_sinks(beh):
             if got != exp:
                 return {'step': i, 'action': {k: v for k, v in st.items() if k != 'exp'},
                         'expected': exp, 'observed': got, 'first_record_after_midnight': _virgin_loss(beh, i),
+                        'comlog_off_as_text': _text_off(boot_step['cfg']),
                         'handler_errors': w.errors[-2:]}
     finally:
         w.close()
@@ -755,7 +767,7 @@ def _random_sink_trace(seed_n):
     conns = ['c1', 'c2', 'c3']
     w = SinkWorld(cfg, MODS, conns)
     alive = set(conns)
-    tr = [{'ev': 'boot', 'cfg': cfg, 'haslevel': False}]
+    tr = [{'ev': 'boot', 'cfg': cfg, 'haslevel': False, 'comlog_off_as_text': _text_off(cfg)}]
     try:
         for _ in range(n):
             r = rnd.random()
@@ -792,7 +804,8 @@ def _random_sink_trace(seed_n):
 def _sig_sinks(bad):
     return {'module': 'Logging', 'world': 'sinks', 'action': bad['action']['act'],
             'diff': sorted(k for k in bad['expected'] if bad['expected'][k] != bad['observed'].get(k)),
-            'first_record_after_midnight': bad['first_record_after_midnight']}
+            'first_record_after_midnight': bad['first_record_after_midnight'],
+            'comlog_off_as_text': bad['comlog_off_as_text']}
 
 
 def _must_fail(cfg, invariant):
